@@ -413,6 +413,15 @@ def _mac_idiom(ctx, eng, V, v, p_msg, p_sig, p_key) -> bool:
     if not res.passes("get_op_key"):
         ctx.fail("R01.6", V, v, "the MAC key is not obtained through key.get_op_key(...)")
         good = False
+    # the MAC is a function of (message, key, hash) only: nothing kept on the (shared) algorithm object takes part
+    wide = [f for f in eng.cg.reachable([V]) if f.module is V.module]
+    res2 = eng.flow.slice(V, mac_side, wide, [V])
+    own = {c.name for c in ([V.cls] + list(V.cls.mro))} if V.cls is not None else set()
+    state = sorted(f for f in res2.fields if f.split(".")[0] in own and f.split(".")[-1] not in ("hash_alg",))
+    if state:
+        ctx.fail("R01.6", V, v, f"the MAC that the signature is compared with depends on state kept on the algorithm object ({state}): it is not a function of the message and "
+                 "the key resolved for this token alone (e.g. a keyed state cached under the kid of another key)", construct=f"MAC depends on {state}")
+        good = False
     return good
 
 
